@@ -4,7 +4,9 @@ from concurrent.futures import ThreadPoolExecutor
 
 VERIF = os.path.dirname(os.path.dirname(os.path.abspath(__file__)))
 REPO = os.environ.get('AY_REPO', '/repo')
-COQ = os.path.join(VERIF, 'coq')
+COQ = os.environ.get('VERIF_COQ_DIR') or os.path.join(VERIF, 'coq')          # overridable: parallel seed passes work on copies
+EVIDENCE = os.environ.get('VERIF_EVIDENCE_DIR') or os.path.join(VERIF, 'evidence')
+REPLAYS = os.environ.get('VERIF_REPLAY_DIR') or os.path.join(VERIF, 'replays')
 PY = '/venv/bin/python'
 ENV = {**os.environ, 'PYTHONPATH': REPO, 'PYTHONHASHSEED': '0', 'AY_REPO': REPO}
 NCPU = min(16, os.cpu_count() or 4)
@@ -24,7 +26,7 @@ def sh(cmd, timeout=600, cwd=None, env=None):
 
 class Lock:
     def __init__(self, name='build'):
-        self.path = os.path.join(VERIF, '.lock_' + name)
+        self.path = os.path.join(COQ if os.environ.get('VERIF_COQ_DIR') else VERIF, '.lock_' + name)
 
     def __enter__(self):
         self.f = open(self.path, 'w')
@@ -44,13 +46,22 @@ def build_coq(targets=None, timeout=1500):
         rc, out = sh([PY, os.path.join(VERIF, 'tools', 'extract_facts.py'), os.path.join(COQ, 'Gen', 'Facts.v')], timeout=120)
         facts_ok = rc == 0
         facts_log = out
+        # T1b: translate the pure decision functions from the Python source (fail-closed: on failure Gen/Src.v is emptied, so that
+        # Proofs/SrcOk.v - which proves the translation equal to the hand-written model - cannot be up to date)
+        src_v = os.path.join(COQ, 'Gen', 'Src.v')
+        rc2, out2 = sh([PY, os.path.join(VERIF, 'tools', 'translate_src.py'), src_v], timeout=120)
+        src_ok = rc2 == 0
+        if not src_ok:
+            stub = '(* translation FAILED: ' + out2.strip().splitlines()[-1].replace('*)', '* )')[:300] + ' *)\n'
+            if not os.path.exists(src_v) or open(src_v).read() != stub:
+                open(src_v, 'w').write(stub)
         if not os.path.exists(os.path.join(COQ, 'Makefile')):
             sh('coq_makefile -f _CoqProject -o Makefile', cwd=COQ)
         cmd = f'timeout {timeout} make -k -j{NCPU} ' + (' '.join(targets) if targets else '')
         rc, out = sh(cmd, cwd=COQ, timeout=timeout + 30)
     failed = re.findall(r'\[Makefile[^\]]*: ([^\]]+\.vo)\] Error', out)
     errs = re.findall(r'File "\./([^"]+)", line (\d+)[^\n]*\n(Error:[^\n]*(?:\n[^\n]+){0,6})', out)
-    return dict(ok=(rc == 0 and facts_ok), facts_ok=facts_ok, facts_log=facts_log, log=out[-6000:], failed=sorted(set(failed)),
+    return dict(ok=(rc == 0 and facts_ok and src_ok), facts_ok=facts_ok, facts_log=facts_log, src_ok=src_ok, src_log=out2, log=out[-6000:], failed=sorted(set(failed)),
                 errors=[dict(file=f, line=int(l), msg=m[:600]) for f, l, m in errs], wall_s=time.time() - t0)
 
 
@@ -192,7 +203,7 @@ class Report:
             self.samples.append(sample)
 
     def violation(self, what, replay, no_input=False):
-        d = os.path.join(VERIF, 'replays', self.pid)
+        d = os.path.join(REPLAYS, self.pid)
         os.makedirs(d, exist_ok=True)
         body = json.dumps(dict(property=self.pid, what=what, replay=replay, no_failing_input_found=no_input), indent=1, default=str)
         h = hashlib.sha1(body.encode()).hexdigest()[:12]
@@ -220,8 +231,8 @@ class Report:
                 obligation_list=[dict(name=n, ok=ok, detail=d) for n, ok, d in self.obligations],
                 histogram=self.hist, known_findings_reproduced=self.known_hits, **self.extra),
             assumptions=self.assumptions or ASSUMPTIONS.get(self.pid, []) + ASSUMPTIONS['*'], wall_s=round(wall, 2), violations=len(self.violations))
-        os.makedirs(os.path.join(VERIF, 'evidence'), exist_ok=True)
-        with open(os.path.join(VERIF, 'evidence', self.pid + '.json'), 'w') as f:
+        os.makedirs(EVIDENCE, exist_ok=True)
+        with open(os.path.join(EVIDENCE, self.pid + '.json'), 'w') as f:
             json.dump(ev, f, indent=1, default=str)
         for k in self.known_hits:
             print(f'KNOWN-FINDING: property={self.pid} {k}')
